@@ -112,3 +112,46 @@ func Loops(fn *ssa.Function) []*LoopInfo {
 	}
 	return out
 }
+
+// pathSplit reports whether the function is evaluated path-sensitively: it is
+// small (at most 12 conditional branches, no loop) and contains a panic, i.e.
+// it is a decision table whose default arm must be shown unreachable.
+func (f *frame) pathSplit() bool {
+	it := f.it
+	if v, ok := it.pathSplitFn[f.fn]; ok {
+		return v
+	}
+	ifs, panics, loops := 0, 0, false
+	for _, b := range f.fn.Blocks {
+		for _, s := range b.Succs {
+			if s.Dominates(b) {
+				loops = true
+			}
+		}
+		switch b.Instrs[len(b.Instrs)-1].(type) {
+		case *ssa.If:
+			ifs++
+		case *ssa.Panic:
+			panics++
+		}
+	}
+	v := panics > 0 && ifs <= 12 && !loops
+	if it.pathSplitFn == nil {
+		it.pathSplitFn = map[*ssa.Function]bool{}
+	}
+	it.pathSplitFn[f.fn] = v
+	return v
+}
+
+// orderedOffsets: lo and hi are offsets of one and the same number and lo's offset is not larger.
+func orderedOffsets(lo, hi *Int) bool {
+	lb, lo0 := lo.RelVID, lo.RelOff
+	if lb == 0 {
+		lb, lo0 = lo.VID, 0
+	}
+	hb, hi0 := hi.RelVID, hi.RelOff
+	if hb == 0 {
+		hb, hi0 = hi.VID, 0
+	}
+	return lb == hb && lo0 <= hi0
+}
